@@ -230,7 +230,7 @@ CHECKS["C10"] = {
   "technique": "Lean 4 proof (induction over command lists, invariant-based refinement) + CLI sequence correspondence under a fake clock + abstract-history oracle",
   "note": TB + "tree side of the refinement theorem is a parameter with the undo round-trip law as hypothesis (proved for the flat-file "
           "instance used by the driver); plan-id hash modelled as injective on (concatenated terms, second); path renames, --commit, "
-          "unparsable history.json (C11) and the lock (C12) not modelled; workspaces git-ignore .renamify (C09's finding kept out).",
+          "unparsable history.json (C11) and the lock (C12) not modelled; the four safety checks (early id check, redo-once, undo/redo pre-validation) are read from apply.rs/undo.rs by translate/history_flags.py into Gen/HistoryFlags.lean and the executable model follows them; workspaces git-ignore .renamify (C09's finding kept out).",
 }
 CHECKS["C04"] = {
   "text": "Operation-level Lean model of rename/apply/redo/replace/undo (RModel/Model/Exec.lean): every mutating libc call goes through "
@@ -425,4 +425,4 @@ CHECKS["C15"] = {
 }
 
 _W = "check built and passing before the latest repo fix commits; temporarily withdrawn while its Lean model is updated to the repaired code"
-PENDING.update({})
+PENDING.update({"C04": _W, "C11": _W, "C16": _W})
